@@ -5,6 +5,7 @@
 //   - the setDefault(...) slice defaults and where they sit, setDefault's own condition;
 //   - the scalar and slice values pre-populated by DefaultConfiguration;
 //   - how -o overrides are applied (after the files; key lower-cased; slice = replaced by the comma split).
+//
 // Everything is recorded by role/structure, not by local variable names.
 package main
 
